@@ -241,7 +241,7 @@ Proof.
     assert (Fb2 : exists bt', find_batch s' b = Some bt' /\ b_user bt' = b_user bt /\ b_deleted bt' = b_deleted bt).
     { unfold find_batch at 1. destruct B as [B|B]; rewrite B.
       - exists bt. auto.
-      - rewrite find_map_key by (intros x; unfold bump_batch; destruct (b_id x =? b); reflexivity).
+      - rewrite find_map_key by (intros x; unfold bump_batch; destruct (b_id x =? b) eqn:K; [cbn; exact K | exact K]).
         unfold find_batch in Fb. rewrite Fb. cbn [option_map]. eexists. split; [reflexivity|].
         unfold bump_batch. destruct (b_id bt =? b); split; reflexivity. }
     destruct Fb2 as (bt' & Fb2 & Eu & Ed).
@@ -258,3 +258,568 @@ Proof.
   destruct o; try contradiction; intros _;
     [apply create_batch_retry | apply create_update_retry | apply create_jobs_retry | apply commit_retry].
 Qed.
+
+(* ------------------------------------------------------------------ a re-sent job-group bunch is rejected and changes nothing *)
+
+Lemma cog_fold_created b u sg l s s' :
+  fold_left (create_one_group b u sg) l (Some s) = Some s' ->
+  forall gs, In gs l -> find_group s' b (gspec_group sg gs) <> None.
+Proof.
+  revert s. induction l as [|x l IH]; intros s E gs Hin; [contradiction|]. cbn [fold_left] in E.
+  destruct (create_one_group b u sg (Some s) x) as [st|] eqn:C; [|rewrite cog_fold_none in E; discriminate].
+  destruct Hin as [<- | Hin]; [|eapply IH; eassumption].
+  apply create_one_group_some in C. cbv zeta in C. destruct C as (_ & _ & _ & Est).
+  assert (G : grow st s').
+  { eapply (cog_fold_rel grow); [apply grow_refl | apply grow_trans | | exact E].
+    intros st0 gs0 st0' C0. apply create_one_group_some in C0. cbv zeta in C0. destruct C0 as (_ & _ & _ & ->). apply create_group_rows_grow. }
+  apply in_gk_find. destruct (gr_groups _ _ G) as (e & ->). apply in_or_app. left.
+  rewrite Est. unfold create_group_rows. scbn. rewrite map_app. apply in_or_app. right. left. reflexivity.
+Qed.
+
+Theorem create_groups_retry_rejected s b u user gss :
+  snd (step s (CreateGroups b u user gss)) = ok [] ->
+  step (fst (step s (CreateGroups b u user gss))) (CreateGroups b u user gss) = (fst (step s (CreateGroups b u user gss)), bad_request).
+Proof.
+  intros Ok. cbn [step] in *.
+  destruct (do_create_groups_shape s b u user gss) as [[_ N] | (up & Fu & F & _ & Fb)]; [contradiction|].
+  set (s1 := fst (do_create_groups s b u user gss)) in *.
+  (* what the first run checked *)
+  unfold do_create_groups in Ok.
+  destruct (is_nil gss) eqn:Nil; [discriminate|]. rewrite Fu in Ok.
+  destruct (find_batch s b) as [bt|] eqn:Fbt; [|contradiction].
+  destruct (negb (b_user bt =? user) || b_deleted bt) eqn:Cond; [discriminate|].
+  destruct (u_committed up) eqn:Cm; [discriminate|].
+  destruct gss as [|g0 gss']; [discriminate|]. clear Ok.
+  assert (G : grow s s1).
+  { eapply (cog_fold_rel grow); [apply grow_refl | apply grow_trans | | exact F].
+    intros st0 gs0 st0' C0. apply create_one_group_some in C0. cbv zeta in C0. destruct C0 as (_ & _ & _ & ->). apply create_group_rows_grow. }
+  assert (Eu : updates s1 = updates s /\ batches s1 = batches s).
+  { eapply (cog_fold_rel (fun st st' => updates st' = updates st /\ batches st' = batches st)); [auto | intros ? ? ? [] []; split; congruence | | exact F].
+    intros st0 gs0 st0' C0. apply create_one_group_some in C0. cbv zeta in C0. destruct C0 as (_ & _ & _ & ->). split; reflexivity. }
+  destruct Eu as (Eu & Eb).
+  unfold do_create_groups. rewrite Nil. unfold find_update, find_batch. rewrite Eu, Eb.
+  fold (find_update s b u). fold (find_batch s b). rewrite Fu, Fbt, Cond, Cm.
+  match goal with |- context [if ?c then _ else _] => destruct c end; [reflexivity|].
+  cbn [fold_left].
+  assert (C : create_one_group b u (u_start_group up) (Some s1) g0 = None).
+  { unfold create_one_group. destruct (group_cancelled s1 b _); [reflexivity|].
+    pose proof (cog_fold_created _ _ _ _ _ _ F g0 (or_introl eq_refl)) as Fg. unfold gspec_group in Fg.
+    destruct (find_group s1 b (u_start_group up + gs_id g0 - 1)); [reflexivity | contradiction]. }
+  rewrite C, cog_fold_none. reflexivity.
+Qed.
+
+(* ------------------------------------------------------------------ (2) the id ranges of the updates of a batch *)
+
+Definition of_batch (b : Z) (l : list update) : list update := filter (fun x => u_batch x =? b) l.
+
+(** ids count up from [id]; each update's job / group range starts where the previous one ended *)
+Fixpoint chained (id sj sg : Z) (l : list update) : Prop :=
+  match l with
+  | [] => True
+  | x :: r => u_id x = id /\ u_start_job x = sj /\ u_start_group x = sg /\ chained (id + 1) (sj + u_njobs x) (sg + u_ngroups x) r
+  end.
+
+Fixpoint chain_end (id sj sg : Z) (l : list update) : Z * Z * Z :=
+  match l with
+  | [] => (id, sj, sg)
+  | x :: r => chain_end (id + 1) (sj + u_njobs x) (sg + u_ngroups x) r
+  end.
+
+Definition ranges_ok (s : state) : Prop :=
+  (forall b, chained 1 1 1 (of_batch b (updates s))) /\
+  Forall (fun x => 0 <= u_njobs x /\ 0 <= u_ngroups x) (updates s).
+
+Lemma chained_app id sj sg l n :
+  chained id sj sg (l ++ [n]) <->
+  chained id sj sg l /\ (u_id n, u_start_job n, u_start_group n) = chain_end id sj sg l.
+Proof.
+  revert id sj sg. induction l as [|x l IH]; intros id sj sg; cbn [app chained chain_end].
+  - split; [intros (A & B & C & _); split; [exact I | congruence] | intros (_ & E); injection E as -> -> ->; auto].
+  - rewrite IH. tauto.
+Qed.
+
+Lemma chained_ukey b l l' : map ukey l = map ukey l' ->
+  forall id sj sg, chained id sj sg (of_batch b l) -> chained id sj sg (of_batch b l').
+Proof.
+  revert l'. induction l as [|x l IH]; intros [|x' l'] E; try discriminate; [auto|].
+  cbn [map] in E. injection E as E1 E2 E3 E4 E5 E6 E7 E. intros id sj sg. cbn [of_batch filter]. rewrite <- E1.
+  destruct (u_batch x =? b); [|apply (IH _ E)]. cbn [chained]. rewrite <- E2, <- E4, <- E5, <- E6, <- E7.
+  intros (A & B & C & D). repeat split; auto. apply (IH _ E). exact D.
+Qed.
+
+Lemma nonneg_ukey l l' : map ukey l = map ukey l' ->
+  Forall (fun x => 0 <= u_njobs x /\ 0 <= u_ngroups x) l -> Forall (fun x => 0 <= u_njobs x /\ 0 <= u_ngroups x) l'.
+Proof.
+  revert l'. induction l as [|x l IH]; intros [|x' l'] E; try discriminate; intros F; constructor.
+  - cbn [map] in E. injection E as _ _ _ _ E5 _ E7 _. inversion F; subst. lia.
+  - cbn [map] in E. injection E as _ _ _ _ _ _ _ E. inversion F; subst. apply (IH _ E). assumption.
+Qed.
+
+(* [last_update] is the end of the chain *)
+Definition lu_step (b : Z) (acc : option update) (x : update) : option update :=
+  if u_batch x =? b then match acc with Some y => if u_id y <? u_id x then Some x else acc | None => Some x end else acc.
+
+Definition lu_next (acc : option update) : Z * Z * Z :=
+  match acc with Some l => (u_id l + 1, u_start_job l + u_njobs l, u_start_group l + u_ngroups l) | None => (1, 1, 1) end.
+
+Lemma last_update_chain b l : forall acc id sj sg,
+  chained id sj sg (of_batch b l) -> lu_next acc = (id, sj, sg) ->
+  lu_next (fold_left (lu_step b) l acc) = chain_end id sj sg (of_batch b l).
+Proof.
+  induction l as [|x l IH]; intros acc id sj sg C N; cbn [fold_left of_batch filter] in C |- *; [exact N|].
+  unfold lu_step at 2. fold (of_batch b l) in C |- *. destruct (u_batch x =? b); [|apply IH; assumption].
+  cbn [chained chain_end] in *. destruct C as (A & B & D & C).
+  assert (E : match acc with Some y => if u_id y <? u_id x then Some x else acc | None => Some x end = Some x).
+  { destruct acc as [y|]; [|reflexivity]. cbn in N. injection N as N1 _ _.
+    replace (u_id y <? u_id x) with true; [reflexivity|]. symmetry. apply Z.ltb_lt. lia. }
+  rewrite E. apply IH; [exact C|]. cbn. congruence.
+Qed.
+
+Lemma last_update_next s b :
+  chained 1 1 1 (of_batch b (updates s)) ->
+  lu_next (last_update s b) = chain_end 1 1 1 (of_batch b (updates s)).
+Proof. intros C. unfold last_update. apply (last_update_chain b (updates s) None 1 1 1 C). reflexivity. Qed.
+
+Lemma of_batch_app b l1 l2 : of_batch b (l1 ++ l2) = of_batch b l1 ++ of_batch b l2.
+Proof. apply filter_app. Qed.
+
+Lemma ranges_ok_create_update s b user token nj ng : ranges_ok s -> ranges_ok (fst (step s (CreateUpdate b user token nj ng))).
+Proof.
+  intros (Hc & Hn). cbn [step]. unfold do_create_update.
+  destruct ((nj <? 0) || (ng <? 0)) eqn:C0; [exact (conj Hc Hn)|].
+  destruct (negb ((0 <? nj) || (0 <? ng))); [exact (conj Hc Hn)|].
+  match goal with |- context [match ?c with Some _ => _ | None => _ end] => destruct c end; [exact (conj Hc Hn)|].
+  destruct (find_batch s b); [|exact (conj Hc Hn)].
+  match goal with |- context [if ?c then _ else _] => destruct c end; [exact (conj Hc Hn)|].
+  destruct (marked s b 0); [exact (conj Hc Hn)|].
+  pose proof (last_update_next s b (Hc b)) as L. unfold lu_next in L.
+  destruct (chain_end 1 1 1 (of_batch b (updates s))) as [[i j] g] eqn:CE.
+  destruct (last_update s b) as [lu|]; injection L as L1 L2 L3; cbn [fst]; unfold ranges_ok; scbn; (split;
+  [ intros b'; rewrite of_batch_app; cbn [of_batch filter u_batch]; destruct (b =? b') eqn:Eb;
+    [ apply Z.eqb_eq in Eb; subst b'; apply chained_app; split; [apply Hc|]; cbn [u_id u_start_job u_start_group]; congruence
+    | rewrite app_nil_r; apply Hc ]
+  | apply Forall_app; split; [exact Hn|]; constructor; [|constructor]; cbn [u_njobs u_ngroups];
+    apply orb_false_iff in C0; destruct C0 as [C1 C2]; apply Z.ltb_ge in C1, C2; lia ]).
+Qed.
+
+Lemma step_ukeys s o :
+  match o with CreateUpdate _ _ _ _ _ => True | _ => map ukey (updates (fst (step s o))) = map ukey (updates s) end.
+Proof.
+  pose proof (step_same_tree s o) as T.
+  destruct o; try exact I; try (destruct T; assumption); cbn [step].
+  - unfold do_create_batch, create_group_rows. repeat (dmatch; try reflexivity).
+  - destruct (do_create_groups_shape s b u user gs) as [[E _] | (up & _ & F & _ & _)]; [rewrite E; reflexivity|].
+    eapply (cog_fold_rel (fun st st' => map ukey (updates st') = map ukey (updates st))); [reflexivity | intros; congruence | | exact F].
+    intros st0 gs0 st0' C0. apply create_one_group_some in C0. cbv zeta in C0. destruct C0 as (_ & _ & _ & ->). reflexivity.
+  - destruct (cancel_step_cases s b g) as [E | E]; cbn [step] in E; rewrite E; [reflexivity | rewrite cancel_proc_updates; reflexivity].
+  - unfold do_delete_batch. repeat (dmatch; try reflexivity). cbn [fst]. scbn. rewrite cancel_proc_updates. reflexivity.
+Qed.
+
+Lemma ranges_ok_step s o : ranges_ok s -> ranges_ok (fst (step s o)).
+Proof.
+  intros R. pose proof (step_ukeys s o) as K.
+  destruct o; try (destruct R as (Hc & Hn); split; [intros b'; eapply chained_ukey; [symmetry; exact K | apply Hc] | eapply nonneg_ukey; [symmetry; exact K | exact Hn]]).
+  apply ranges_ok_create_update. exact R.
+Qed.
+
+Lemma ranges_ok_init : ranges_ok init.
+Proof. split; [intros b; exact I | constructor]. Qed.
+
+Lemma ranges_ok_run ops : ranges_ok (run ops).
+Proof. apply (run_invariant ranges_ok); [apply ranges_ok_init | apply ranges_ok_step]. Qed.
+
+(* consequences: in update order, contiguous, disjoint; (batch, update id) is a key *)
+Definition unn (x : update) : Prop := 0 <= u_njobs x /\ 0 <= u_ngroups x.
+
+Lemma chained_lower l : forall id sj sg, chained id sj sg l -> Forall unn l ->
+  forall y, In y l -> id <= u_id y /\ sj <= u_start_job y /\ sg <= u_start_group y.
+Proof.
+  induction l as [|x l IH]; intros id sj sg C N y Hy; [contradiction|].
+  cbn [chained] in C. destruct C as (A & B & D & C). inversion N as [|? ? Nx Nl]; subst.
+  destruct Hy as [<- | Hy]; [lia|]. destruct (IH _ _ _ C Nl y Hy) as (H1 & H2 & H3). unfold unn in Nx. lia.
+Qed.
+
+Lemma chained_after l1 : forall id sj sg x l2, chained id sj sg (l1 ++ x :: l2) -> Forall unn (l1 ++ x :: l2) ->
+  forall y, In y l2 -> u_id x < u_id y /\ u_start_job x + u_njobs x <= u_start_job y /\ u_start_group x + u_ngroups x <= u_start_group y.
+Proof.
+  induction l1 as [|z l1 IH]; intros id sj sg x l2 C N y Hy; cbn [app chained] in C; destruct C as (A & B & D & C); inversion N as [|? ? Nx Nl]; subst.
+  - destruct (chained_lower _ _ _ _ C Nl y Hy) as (H1 & H2 & H3). lia.
+  - eapply IH; eassumption.
+Qed.
+
+Lemma in_of_batch b l x : In x (of_batch b l) <-> In x l /\ u_batch x = b.
+Proof. unfold of_batch. rewrite filter_In, Z.eqb_eq. tauto. Qed.
+
+Lemma forall_of_batch b l : Forall unn l -> Forall unn (of_batch b l).
+Proof. intros F. apply Forall_forall. intros x Hx. apply in_of_batch in Hx. rewrite Forall_forall in F. apply F. tauto. Qed.
+
+(** two updates of the same batch: the one with the smaller id has the earlier, disjoint job-id and group-id range *)
+Theorem ranges_ordered s x y :
+  ranges_ok s -> In x (updates s) -> In y (updates s) -> u_batch x = u_batch y -> u_id x < u_id y ->
+  u_start_job x + u_njobs x <= u_start_job y /\ u_start_group x + u_ngroups x <= u_start_group y.
+Proof.
+  intros (Hc & Hn) Hx Hy Eb Lt. set (b := u_batch y) in *.
+  assert (Ix : In x (of_batch b (updates s))) by (apply in_of_batch; auto).
+  assert (Iy : In y (of_batch b (updates s))) by (apply in_of_batch; auto).
+  pose proof (Hc b) as C. pose proof (forall_of_batch b _ Hn) as N.
+  destruct (in_split _ _ Ix) as (l1 & l2 & E). rewrite E in C, N, Iy.
+  apply in_app_or in Iy. destruct Iy as [Iy | [<- | Iy]]; [|lia|].
+  - exfalso. destruct (in_split _ _ Iy) as (m1 & m2 & E1). rewrite E1, <- app_assoc in C, N. cbn [app] in C, N.
+    assert (Hin : In x (m2 ++ x :: l2)) by (apply in_or_app; right; left; reflexivity).
+    destruct (chained_after _ _ _ _ _ _ C N x Hin) as (H & _). lia.
+  - destruct (chained_after _ _ _ _ _ _ C N y Iy) as (_ & H). exact H.
+Qed.
+
+Lemma update_key_unique s x y :
+  ranges_ok s -> In x (updates s) -> In y (updates s) -> u_batch x = u_batch y -> u_id x = u_id y -> x = y.
+Proof.
+  intros (Hc & Hn) Hx Hy Eb Ei. set (b := u_batch y) in *.
+  assert (Ix : In x (of_batch b (updates s))) by (apply in_of_batch; auto).
+  assert (Iy : In y (of_batch b (updates s))) by (apply in_of_batch; auto).
+  pose proof (Hc b) as C. pose proof (forall_of_batch b _ Hn) as N.
+  destruct (in_split _ _ Ix) as (l1 & l2 & E). rewrite E in C, N, Iy.
+  apply in_app_or in Iy. destruct Iy as [Iy | [Iy | Iy]]; [|exact Iy|]; exfalso.
+  - destruct (in_split _ _ Iy) as (m1 & m2 & E1). rewrite E1, <- app_assoc in C, N. cbn [app] in C, N.
+    assert (Hin : In x (m2 ++ x :: l2)) by (apply in_or_app; right; left; reflexivity).
+    destruct (chained_after _ _ _ _ _ _ C N x Hin) as (H & _). lia.
+  - destruct (chained_after _ _ _ _ _ _ C N y Iy) as (H & _). lia.
+Qed.
+
+Lemma find_update_in s x : ranges_ok s -> In x (updates s) -> find_update s (u_batch x) (u_id x) = Some x.
+Proof.
+  intros R Hx. unfold find_update. destruct (find _ (updates s)) as [y|] eqn:F.
+  - apply find_some in F. destruct F as (Hy & K). apply andb_true_iff in K. destruct K as [K1 K2].
+    f_equal. apply (update_key_unique s y x R Hy Hx); lia.
+  - pose proof (find_none _ _ F x Hx) as K. cbv beta in K. rewrite !Z.eqb_refl in K. discriminate.
+Qed.
+
+(** the first update of a batch starts at job 1 / group 1 with id 1 *)
+Theorem ranges_start s x :
+  ranges_ok s -> In x (updates s) -> u_id x = 1 -> u_start_job x = 1 /\ u_start_group x = 1.
+Proof.
+  intros (Hc & Hn) Hx E1. set (b := u_batch x).
+  assert (Ix : In x (of_batch b (updates s))) by (apply in_of_batch; auto).
+  pose proof (Hc b) as C. pose proof (forall_of_batch b _ Hn) as N.
+  destruct (of_batch b (updates s)) as [|z l] eqn:E; [contradiction|].
+  cbn [chained] in C. destruct C as (A & B & D & C). destruct Ix as [<- | Ix]; [auto|].
+  inversion N as [|? ? Nz Nl]; subst. destruct (chained_lower _ _ _ _ C Nl x Ix) as (H & _). lia.
+Qed.
+
+Lemma chained_adjacent l1 : forall id sj sg x y l3, chained id sj sg (l1 ++ x :: y :: l3) ->
+  u_start_job y = u_start_job x + u_njobs x /\ u_start_group y = u_start_group x + u_ngroups x /\ u_id y = u_id x + 1.
+Proof.
+  induction l1 as [|z l1 IH]; intros id sj sg x y l3 C; cbn [app chained] in C.
+  - destruct C as (A0 & A & B & A0' & A' & B' & _). lia.
+  - destruct C as (_ & _ & _ & C). eapply IH; exact C.
+Qed.
+
+(** the update after update k starts where k ends *)
+Theorem ranges_contiguous s x y :
+  ranges_ok s -> In x (updates s) -> In y (updates s) -> u_batch x = u_batch y -> u_id y = u_id x + 1 ->
+  u_start_job y = u_start_job x + u_njobs x /\ u_start_group y = u_start_group x + u_ngroups x.
+Proof.
+  intros R Hx Hy Eb Ei. pose proof R as (Hc & Hn). set (b := u_batch y) in *.
+  assert (Ix : In x (of_batch b (updates s))) by (apply in_of_batch; auto).
+  assert (Iy : In y (of_batch b (updates s))) by (apply in_of_batch; auto).
+  pose proof (Hc b) as C. pose proof (forall_of_batch b _ Hn) as N.
+  destruct (in_split _ _ Ix) as (l1 & l2 & E). rewrite E in C, N, Iy.
+  (* y is the element right after x *)
+  assert (Hl2 : exists l3, l2 = y :: l3).
+  { apply in_app_or in Iy. destruct Iy as [Iy | [Iy | Iy]].
+    - exfalso. destruct (in_split _ _ Iy) as (m1 & m2 & E1). rewrite E1, <- app_assoc in C, N. cbn [app] in C, N.
+      assert (Hin : In x (m2 ++ x :: l2)) by (apply in_or_app; right; left; reflexivity).
+      destruct (chained_after _ _ _ _ _ _ C N x Hin) as (H & _). lia.
+    - subst y. lia.
+    - destruct l2 as [|z l3]; [contradiction|]. destruct Iy as [-> | Iy]; [eauto|]. exfalso.
+      assert (Hz : u_id x < u_id z) by (apply (chained_after _ _ _ _ _ _ C N z); left; reflexivity).
+      replace (l1 ++ x :: z :: l3) with ((l1 ++ [x]) ++ z :: l3) in C, N by (rewrite <- app_assoc; reflexivity).
+      destruct (chained_after _ _ _ _ _ _ C N y Iy) as (H & _). lia. }
+  destruct Hl2 as (l3 & ->). destruct (chained_adjacent _ _ _ _ _ _ _ C) as (H1 & H2 & _). auto.
+Qed.
+
+(* ------------------------------------------------------------------ the updates table along any transaction *)
+
+Ltac upd :=
+  repeat first
+    [ reflexivity
+    | progress autorewrite with frame
+    | rewrite fold_keeps by (intros; upd)
+    | progress scbn
+    | progress cbv zeta
+    | progress unfold set_times, finish_groups, release_children
+    | dmatch ].
+
+Lemma release_children_updates s b j succ : updates (release_children s b j succ) = updates s.
+Proof.
+  unfold release_children. cbv zeta. apply fold_keeps. intros st c. destruct (find_job st b c); [|reflexivity].
+  match goal with |- context [if ?c then _ else _] => destruct c end; [reflexivity | apply update_job_updates].
+Qed.
+
+Lemma mc_finish_updates s3 x b j a ns total : updates (mc_finish s3 x b j a ns total) = updates s3.
+Proof.
+  unfold mc_finish. cbv zeta. rewrite release_children_updates. unfold finish_groups. scbn.
+  match goal with |- context [if ?c then _ else _] => destruct c end; scbn; apply update_job_updates.
+Qed.
+
+(** only CreateUpdate (append) and Commit (set the committed flag) change the updates table *)
+Lemma step_updates s o :
+  match o with
+  | CreateUpdate _ _ _ _ _ => updates (fst (step s o)) = updates s \/ exists n, updates (fst (step s o)) = updates s ++ [n]
+  | Commit b u _ => updates (fst (step s o)) = updates s \/ updates (fst (step s o)) = map (set_committed b u) (updates s)
+  | _ => updates (fst (step s o)) = updates s
+  end.
+Proof.
+  destruct o; cbn [step].
+  - unfold do_create_batch, create_group_rows. upd.
+  - unfold do_create_update. repeat (dmatch; try (left; reflexivity)). all: right; eexists; reflexivity.
+  - destruct (do_create_groups_shape s b u user gs) as [[E _] | (up & _ & F & _ & _)]; [rewrite E; reflexivity|].
+    eapply (cog_fold_rel (fun st st' => updates st' = updates st)); [reflexivity | intros; congruence | | exact F].
+    intros st0 gs0 st0' C0. apply create_one_group_some in C0. cbv zeta in C0. destruct C0 as (_ & _ & _ & ->). reflexivity.
+  - destruct (do_create_jobs_shape s b u user js) as [E | (up & bt & _ & _ & _ & _ & E)]; rewrite E; [reflexivity|].
+    cbn [fst]. apply cj_insert_same_tree_fields.
+  - unfold do_commit. destruct (find_batch s b); [|left; reflexivity]. destruct (find_update s b u); [|left; reflexivity].
+    match goal with |- context [if ?c then _ else _] => destruct c end; [left; reflexivity|].
+    destruct (marked s b 0); [left; reflexivity|].
+    destruct (do_commit_proc_shape s b u) as [E | (up & _ & _ & _ & U & _)]; [left; rewrite E; reflexivity | right; exact U].
+  - destruct (cancel_step_cases s b g) as [E | E]; cbn [step] in E; rewrite E; [reflexivity | apply cancel_proc_updates].
+  - unfold do_delete_batch. repeat (dmatch; try reflexivity). cbn [fst]. scbn. apply cancel_proc_updates.
+  - apply (sc_updates _ _ (do_new_instance_core s name ic cores pool)).
+  - apply (sc_updates _ _ (do_activate_core s name)).
+  - unfold do_deactivate. upd.
+  - apply (sc_updates _ _ (do_mark_deleted_core s name)).
+  - destruct (do_schedule_shape s b j att inst) as [C | (x & s1 & _ & C & _ & _ & E)]; [apply (sc_updates _ _ C)|].
+    rewrite E, update_job_updates. apply (sc_updates _ _ C).
+  - unfold do_unschedule. upd.
+  - destruct (do_mcs_shape true s b j att inst time) as [C | (x & s1 & _ & C & _ & _ & E)]; [apply (sc_updates _ _ C)|].
+    rewrite E, update_job_updates. apply (sc_updates _ _ C).
+  - destruct (do_mcs_shape false s b j att inst time) as [C | (x & s1 & _ & C & _ & _ & E)]; [apply (sc_updates _ _ C)|].
+    rewrite E, update_job_updates. apply (sc_updates _ _ C).
+  - destruct (do_mark_complete_shape s b j att inst new_state start endt reason) as [C | (x & s3 & _ & C & _ & E)]; [apply (sc_updates _ _ C)|].
+    rewrite E, mc_finish_updates. apply (sc_updates _ _ C).
+  - apply (sc_updates _ _ (do_add_resources_core s b j att rs)).
+  - apply (sc_updates _ _ (do_billing_update_core s time atts)).
+  - reflexivity.
+  - reflexivity.
+Qed.
+
+(** an update row keeps its key columns (ids, token, ranges) for ever, and stays committed once it is *)
+Lemma find_update_step s o b u up :
+  find_update s b u = Some up ->
+  exists up', find_update (fst (step s o)) b u = Some up' /\ ukey up' = ukey up /\ (u_committed up = true -> u_committed up' = true).
+Proof.
+  intros F. pose proof (step_updates s o) as U.
+  assert (Same : updates (fst (step s o)) = updates s ->
+                 exists up', find_update (fst (step s o)) b u = Some up' /\ ukey up' = ukey up /\ (u_committed up = true -> u_committed up' = true)).
+  { intros E. exists up. unfold find_update. rewrite E. auto. }
+  destruct o; try (apply Same; exact U).
+  - destruct U as [E | (n & E)]; [apply Same; exact E|]. exists up. unfold find_update in *. rewrite E, find_app, F. auto.
+  - destruct U as [E | E]; [apply Same; exact E|]. unfold find_update in *. rewrite E.
+    rewrite find_map_key by (intros x; unfold set_committed; destruct ((u_batch x =? b0) && (u_id x =? u0)) eqn:K; [cbn; reflexivity | reflexivity]).
+    rewrite F. cbn [option_map]. eexists. split; [reflexivity|]. unfold set_committed.
+    destruct ((u_batch up =? b0) && (u_id up =? u0)); cbn; auto.
+Qed.
+
+Lemma find_update_history s ops b u up :
+  find_update s b u = Some up ->
+  exists up', find_update (run_from s ops) b u = Some up' /\ ukey up' = ukey up /\ (u_committed up = true -> u_committed up' = true).
+Proof.
+  revert s up. induction ops as [|o r IH]; intros s up F; cbn [run_from fold_left]; [exists up; auto|].
+  destruct (find_update_step s o b u up F) as (up1 & F1 & K1 & C1).
+  destruct (IH _ _ F1) as (up2 & F2 & K2 & C2). exists up2. split; [exact F2|]. split; [congruence | auto].
+Qed.
+
+(* lookups by a function of the key survive appends and key-preserving rewrites *)
+Lemma find_key_prefix {A K} (key : A -> K) (q : K -> bool) l : forall l2 e x,
+  map key l2 = map key l ++ e -> find (fun x => q (key x)) l = Some x ->
+  exists x2, find (fun x => q (key x)) l2 = Some x2 /\ key x2 = key x.
+Proof.
+  induction l as [|y l IH]; intros l2 e x E F; [discriminate|].
+  destruct l2 as [|y2 l2]; [discriminate|]. cbn [map app] in E. injection E as E1 E. cbn [find] in *. rewrite E1.
+  destruct (q (key y)); [injection F as <-; eauto | eapply IH; eassumption].
+Qed.
+
+(* ------------------------------------------------------------------ retries after other requests have been served *)
+
+(** CreateBatch: once a batch with this (user, token) exists, the request returns it and changes nothing, whatever happened since *)
+Theorem create_batch_later s ops user bp token x :
+  find (fun x => (b_token x =? token) && (b_user x =? user)) (batches s) = Some x ->
+  forall m, step (run_from s ops) (CreateBatch user bp token m) = (run_from s ops, if m then ok [b_id x] else (3, [])).
+Proof.
+  intros F m. cbn [step]. unfold do_create_batch. destruct m; cbn [negb]; [|reflexivity].
+  destruct (gr_batches _ _ (run_from_grow s ops)) as (e & E).
+  destruct (find_key_prefix bkey (fun k => let '(_, u, t, _) := k in (t =? token) && (u =? user)) _ _ _ _ E F) as (x2 & F2 & K).
+  cbn beta iota in F2. unfold bkey in F2 at 1. cbn beta iota in F2. rewrite F2. unfold bkey in K. injection K as -> _ _ _. reflexivity.
+Qed.
+
+Lemma create_batch_answer s user bp token m id :
+  snd (step s (CreateBatch user bp token m)) = ok [id] ->
+  exists x, find (fun x => (b_token x =? token) && (b_user x =? user)) (batches (fst (step s (CreateBatch user bp token m)))) = Some x /\ b_id x = id.
+Proof.
+  cbn [step]. unfold do_create_batch. destruct (negb m); [discriminate|].
+  destruct (find _ (batches s)) as [x|] eqn:F; cbn [fst snd].
+  - intros E. injection E as <-. eauto.
+  - cbv zeta. cbn [fst snd]. intros E. injection E as <-. unfold create_group_rows. scbn. rewrite find_app, F. cbn [find b_token b_user].
+    rewrite !Z.eqb_refl. cbn [andb]. eexists. split; reflexivity.
+Qed.
+
+(** CreateUpdate: once an update with this token exists for the batch (and the batch belongs to the user), the request returns
+    that update's id and ranges and changes nothing *)
+Theorem create_update_later s ops b user token x bt :
+  find_batch s b = Some bt -> b_user bt = user ->
+  find (fun x => (u_batch x =? b) && (u_token x =? token)) (updates s) = Some x ->
+  forall nj ng,
+  fst (step (run_from s ops) (CreateUpdate b user token nj ng)) = run_from s ops /\
+  ((nj <? 0) || (ng <? 0) = false -> (0 <? nj) || (0 <? ng) = true ->
+   snd (step (run_from s ops) (CreateUpdate b user token nj ng)) = ok [u_id x; u_start_group x; u_start_job x]).
+Proof.
+  intros Fb Eu F nj ng. cbn [step]. unfold do_create_update. set (s2 := run_from s ops).
+  destruct (gr_batches _ _ (run_from_grow s ops)) as (eb & EB). destruct (gr_updates _ _ (run_from_grow s ops)) as (eu & EU). fold s2 in EB, EU.
+  unfold find_batch in Fb.
+  destruct (find_key_prefix bkey (fun k => let '(i, _, _, _) := k in i =? b) _ _ _ _ EB Fb) as (bt2 & Fb2 & Kb).
+  cbn beta iota in Fb2. unfold bkey in Fb2 at 1. cbn beta iota in Fb2. unfold bkey in Kb. injection Kb as _ Ku _ _.
+  destruct (find_key_prefix ukey (fun k => match k with b' :: _ :: t :: _ => (b' =? b) && (t =? token) | _ => false end) _ _ _ _ EU F) as (x2 & F2 & Kx).
+  cbn beta iota in F2. unfold ukey in F2 at 1. cbn beta iota in F2. unfold ukey in Kx. injection Kx as _ K2 _ K4 _ K6 _.
+  destruct ((nj <? 0) || (ng <? 0)); [split; [reflexivity | discriminate]|].
+  destruct ((0 <? nj) || (0 <? ng)); cbn [negb]; [|split; [reflexivity | discriminate]].
+  unfold find_batch. rewrite Fb2, Ku, Eu, Z.eqb_refl, F2. cbn [fst snd]. split; [reflexivity|]. intros _ _. congruence.
+Qed.
+
+Lemma create_update_answer s b user token nj ng uid sg sj :
+  snd (step s (CreateUpdate b user token nj ng)) = ok [uid; sg; sj] ->
+  exists x bt, find (fun x => (u_batch x =? b) && (u_token x =? token)) (updates (fst (step s (CreateUpdate b user token nj ng)))) = Some x /\
+            u_id x = uid /\ u_start_group x = sg /\ u_start_job x = sj /\ u_batch x = b /\
+            find_batch (fst (step s (CreateUpdate b user token nj ng))) b = Some bt /\ b_user bt = user.
+Proof.
+  cbn [step]. unfold do_create_update.
+  destruct ((nj <? 0) || (ng <? 0)); [discriminate|]. destruct (negb ((0 <? nj) || (0 <? ng))); [discriminate|].
+  destruct (find_batch s b) as [bt|] eqn:Fb; [|discriminate].
+  destruct (b_user bt =? user) eqn:Eu; cbn [negb orb]; [|discriminate]. apply Z.eqb_eq in Eu.
+  destruct (find _ (updates s)) as [x|] eqn:F; cbn [fst snd].
+  - intros E. injection E as <- <- <-. exists x, bt. pose proof F as F'. apply find_some in F'. destruct F' as (_ & K). apply andb_true_iff in K.
+    repeat split; auto; lia.
+  - destruct (b_deleted bt); [discriminate|]. destruct (marked s b 0); [discriminate|].
+    destruct (match last_update s b with Some l => _ | None => _ end) as [[uid' sg'] sj']. cbn [fst snd]. intros E. injection E as <- <- <-.
+    scbn. rewrite find_app, F. cbn [find u_batch u_token]. rewrite !Z.eqb_refl. cbn [andb].
+    eexists _, bt. repeat split; auto.
+Qed.
+
+(** Commit: once the update is committed, committing again changes nothing *)
+Theorem commit_later s ops b u up :
+  find_update s b u = Some up -> u_committed up = true ->
+  forall user, fst (step (run_from s ops) (Commit b u user)) = run_from s ops.
+Proof.
+  intros F C user. destruct (find_update_history s ops b u up F) as (up2 & F2 & _ & C2). specialize (C2 C).
+  cbn [step]. unfold do_commit. destruct (find_batch _ b); [|reflexivity]. rewrite F2.
+  match goal with |- context [if ?c then _ else _] => destruct c end; [reflexivity|].
+  destruct (marked _ b 0); [reflexivity|]. unfold do_commit_proc. rewrite F2, C2. reflexivity.
+Qed.
+
+Lemma commit_answer s b u user :
+  snd (step s (Commit b u user)) = ok [0] ->
+  exists up, find_update (fst (step s (Commit b u user))) b u = Some up /\ u_committed up = true.
+Proof.
+  cbn [step]. unfold do_commit. destruct (find_batch s b); [|discriminate]. destruct (find_update s b u) as [up0|] eqn:F0; [|discriminate].
+  match goal with |- context [if ?c then _ else _] => destruct c end; [discriminate|].
+  destruct (marked s b 0); [discriminate|].
+  destruct (do_commit_proc_shape s b u) as [E | (up & Fu & Cm & R & U & _)].
+  - rewrite E. unfold do_commit_proc. rewrite F0. destruct (u_committed up0) eqn:C0; [eauto|]. cbv zeta.
+    match goal with |- context [if ?c then _ else _] => destruct c eqn:K end; [discriminate|].
+    (* a commit that is carried out changes the updates table: impossible when the state is unchanged *)
+    intros _. exfalso. unfold do_commit_proc in E. rewrite F0, C0 in E. cbv zeta in E. rewrite K in E.
+    assert (U : updates s = map (set_committed b u) (updates s)).
+    { rewrite <- E at 1. match goal with |- context [if ?c then _ else _] => destruct c end; [reflexivity|].
+      match goal with |- context [if ?c then _ else _] => destruct c end; cbn [fst];
+        rewrite ?fold_keeps by (intros; autorewrite with frame; reflexivity);
+        (rewrite fold_keeps; [reflexivity|]); intros st kv; repeat dmatch; reflexivity. }
+    pose proof (find_update_set_committed s b u up0 F0) as F1. rewrite <- U in F1. unfold find_update in F0. rewrite F0 in F1.
+    injection F1 as F1. rewrite F1 in C0. cbn in C0. discriminate.
+  - intros _. exists (up <| u_committed := true |>). split; [|reflexivity]. unfold find_update. rewrite U. apply find_update_set_committed. exact Fu.
+Qed.
+
+(* ------------------------------------------------------------------ (3) the ids the client computes *)
+
+(** hailtop.batch_client.aioclient: Job._submit sets  self._job_id = in_update_start_job_id + self._job_id - 1,
+    JobGroup._submit sets  self._job_group_id = in_update_start_job_group_id + self._job_group_id - 1  *)
+Definition client_job_id (start rel : Z) : Z := start + rel - 1.
+Definition client_group_id (start rel : Z) : Z := start + rel - 1.
+
+Lemma server_job_id b u sj sg x : j_id (fst (job_of_spec b u sj sg x)) = client_job_id sj (js_id x).
+Proof. unfold job_of_spec, client_job_id. cbn. lia. Qed.
+
+Lemma server_job_group b u sj sg x :
+  j_group (fst (job_of_spec b u sj sg x)) = match js_group_abs x with Some g => g | None => client_group_id sg (js_group_rel x) end.
+Proof. reflexivity. Qed.
+
+Lemma server_group_id sg gs : gspec_group sg gs = client_group_id sg (gs_id gs).
+Proof. reflexivity. Qed.
+
+Lemma find_in_nodup_ids b l y :
+  NoDup (map j_id l) -> (forall z, In z l -> j_batch z = b) -> In y l -> find (jkey b (j_id y)) l = Some y.
+Proof.
+  induction l as [|z l IH]; intros ND Hb Hy; [contradiction|]. cbn [map] in ND. inversion ND as [|? ? Hn ND']; subst. cbn [find].
+  destruct Hy as [-> | Hy].
+  - replace (jkey b (j_id y) y) with true; [reflexivity|]. symmetry. apply jkey_true. split; [apply Hb; left; reflexivity | reflexivity].
+  - destruct (jkey b (j_id y) z) eqn:K.
+    + exfalso. apply jkey_true in K. apply Hn. destruct K as [_ K]. rewrite K. apply in_map. exact Hy.
+    + apply IH; auto. intros z' Hz'. apply Hb. right. exact Hz'.
+Qed.
+
+(** an accepted job bunch: every spec's job is found under the id the client will compute for it *)
+Theorem accepted_bunch_client_ids s b u user jss up :
+  find_update s b u = Some up -> fst (step s (CreateJobs b u user jss)) <> s ->
+  forall x, In x jss ->
+  find_job (fst (step s (CreateJobs b u user jss))) b (client_job_id (u_start_job up) (js_id x))
+  = Some (fst (job_of_spec b u (u_start_job up) (u_start_group up) x)).
+Proof.
+  intros Fu Ne x Hx. cbn [step] in *.
+  destruct (do_create_jobs_shape s b u user jss) as [E | (up' & bt & Fu' & _ & _ & V & E)]; [contradiction|].
+  rewrite Fu in Fu'. injection Fu' as <-. rewrite E. cbn [fst]. rewrite find_job_eq, cj_insert_jobs, find_jkey_app.
+  pose proof (fun x H => proj1 (cj_specs_batch b u up jss x H)) as Hb.
+  destruct (insert_verdict_ok s b _ [] Hb V) as (F & ND).
+  set (y := fst (job_of_spec b u (u_start_job up) (u_start_group up) x)).
+  assert (Hy : In y (map fst (cj_specs b u up jss))).
+  { unfold cj_specs. rewrite map_map. apply in_map_iff. exists x. auto. }
+  rewrite Forall_forall in F. destruct (F y Hy) as (_ & _ & Fn & _).
+  rewrite <- (server_job_id b u (u_start_job up) (u_start_group up) x). fold y.
+  rewrite find_job_eq in Fn. rewrite Fn. apply find_in_nodup_ids; auto.
+Qed.
+
+(** CreateJobs: once the first job of a bunch exists, the bunch changes nothing, whatever happened since *)
+Theorem create_jobs_later s ops b u user jss up j0 :
+  jobs_unique s -> find_update s b u = Some up -> hd_error jss = Some j0 ->
+  find_job s b (client_job_id (u_start_job up) (js_id j0)) <> None ->
+  fst (step (run_from s ops) (CreateJobs b u user jss)) = run_from s ops.
+Proof.
+  intros U Fu Hd Fj. cbn [step].
+  destruct (find_update_history s ops b u up Fu) as (up2 & Fu2 & K & _).
+  apply do_create_jobs_first_exists with (up := up2) (j0 := j0); auto.
+  rewrite server_job_id. unfold ukey in K. injection K as _ _ _ K4 _ _ _. rewrite K4.
+  destruct (find_job s b (client_job_id (u_start_job up) (js_id j0))) as [y|] eqn:Fy; [|contradiction].
+  destruct (job_persists s ops b _ y U Fy) as (y' & Fy' & _). rewrite Fy'. discriminate.
+Qed.
+
+(* ------------------------------------------------------------------ (4) nothing is counted twice *)
+
+Theorem retry_no_double_count s o :
+  retriable o ->
+  let s1 := fst (step s o) in let s2 := fst (step s1 o) in
+  staging s2 = staging s1 /\ user_res s2 = user_res s1 /\ cancellable s2 = cancellable s1 /\
+  batches s2 = batches s1 /\ groups s2 = groups s1 /\ updates s2 = updates s1 /\ jobs s2 = jobs s1.
+Proof. intros R. cbv zeta. rewrite (retry_idempotent s o R). repeat split; reflexivity. Qed.
+
+(* ------------------------------------------------------------------ examples: the hypotheses are satisfiable *)
+
+Definition two_updates : list op :=
+  [CreateBatch 1 1 1 true; CreateUpdate 1 1 10 2 1; CreateGroups 1 1 1 [mkGspec 1 (Some 0) 0];
+   CreateJobs 1 1 1 [mkJspec 1 None 1 [] [] false 1000 0; mkJspec 2 None 1 [] [1] false 1000 0];
+   Commit 1 1 1; CreateUpdate 1 1 11 3 0; CreateUpdate 1 1 12 1 2].
+
+Example two_updates_ranges :
+  map (fun x => [u_id x; u_start_job x; u_njobs x; u_start_group x; u_ngroups x]) (updates (run two_updates))
+  = [[1; 1; 2; 1; 1]; [2; 3; 3; 2; 0]; [3; 6; 1; 2; 2]].
+Proof. vm_compute. reflexivity. Qed.
+
+(* every request of the history re-sent right away: same answers, same final state *)
+Example two_updates_all_retried :
+  run (flat_map (fun o => [o; o]) two_updates) = run two_updates.
+Proof. vm_compute. reflexivity. Qed.
